@@ -398,6 +398,7 @@ public:
 				throw integer_divide_by_zero{};
 #else
 				std::cerr << "integer_divide_by_zero\n";
+				return *this; // a native division by zero would trap
 #endif // INTEGER_THROW_ARITHMETIC_EXCEPTION
 			}
 			if constexpr (NumberType == WholeNumber) {
@@ -416,10 +417,15 @@ public:
 				_block[0] = static_cast<bt>(std::int16_t(_block[0]) / std::int16_t(rhs._block[0]));
 			}
 			else if constexpr (sizeof(BlockType) == 4) {
-				_block[0] = static_cast<bt>(std::int32_t(_block[0]) / std::int32_t(rhs._block[0]));
+				_block[0] = static_cast<bt>(std::int64_t(std::int32_t(_block[0])) / std::int64_t(std::int32_t(rhs._block[0]))); // minint / -1 wraps instead of trapping
 			}
 			else if constexpr (sizeof(BlockType) == 8) {
-				_block[0] = static_cast<bt>(std::int64_t(_block[0]) / std::int64_t(rhs._block[0]));		
+				if (std::int64_t(rhs._block[0]) == -1) { // minint / -1 wraps instead of trapping
+					_block[0] = static_cast<bt>(bt(0) - _block[0]);
+				}
+				else {
+					_block[0] = static_cast<bt>(std::int64_t(_block[0]) / std::int64_t(rhs._block[0]));
+				}
 			}
 			_block[0] = static_cast<bt>(MSU_MASK & _block[0]);
 		}
@@ -436,6 +442,7 @@ public:
 				throw integer_divide_by_zero{};
 #else
 				std::cerr << "integer_divide_by_zero\n";
+				return *this; // a native division by zero would trap
 #endif // INTEGER_THROW_ARITHMETIC_EXCEPTION
 			}
 			if constexpr (sizeof(BlockType) == 1) {
@@ -445,10 +452,10 @@ public:
 				_block[0] = static_cast<bt>(std::int16_t(_block[0]) % std::int16_t(rhs._block[0]));
 			}
 			else if constexpr (sizeof(BlockType) == 4) {
-				_block[0] = static_cast<bt>(std::int32_t(_block[0]) % std::int32_t(rhs._block[0]));
+				_block[0] = static_cast<bt>(std::int64_t(std::int32_t(_block[0])) % std::int64_t(std::int32_t(rhs._block[0]))); // minint % -1 is 0
 			}
 			else if constexpr (sizeof(BlockType) == 8) {
-				_block[0] = static_cast<bt>(std::int64_t(_block[0]) % std::int64_t(rhs._block[0]));
+				_block[0] = (std::int64_t(rhs._block[0]) == -1) ? bt(0) : static_cast<bt>(std::int64_t(_block[0]) % std::int64_t(rhs._block[0])); // minint % -1 is 0
 			}
 			_block[0] = static_cast<bt>(MSU_MASK & _block[0]);
 		}
